@@ -5,7 +5,7 @@ CONSTANT StartRows <- PairRows
 CONSTANT StartCols <- PairCols
 CONSTANT CarryCells <- PairCells
 CONSTANT CarryShelves <- SecondShelf
-CONSTRAINT Bounded
+INVARIANT Bounded
 INVARIANT Protocol
 INVARIANT MaskSound
 INVARIANT MaskCached
